@@ -97,7 +97,8 @@ def st_start(draw, max_rank=3):
     return {'dt': draw(gens.st_dt()), 'shape': shape, 'seed': draw(st.integers(0, 2 ** 31)),
             'how': draw(st.sampled_from(['asarray', 'asarray', 'create'])), 'mode': draw(st.sampled_from(['r+', 'r+', 'r'])),
             'meta': draw(st.booleans()), 'layout': draw(st.sampled_from(['C', 'C'] + gens.LAYOUTS)),
-            'chunklen': draw(st.sampled_from([None, 1, 2, 5]))}
+            'chunklen': draw(st.sampled_from([None, 1, 2, 5])), 'dtspell': draw(st.sampled_from([0, 0, 0] + list(range(1, 16)))),
+            'owspell': draw(st.sampled_from([0, 0, 1, 2, 3]))}
 
 
 @st.composite
@@ -325,7 +326,10 @@ class ArrayRun:
         shape = tuple(start['shape'])
         ref = gens.build_array(dt, shape, {'m': start.get('vals', 'raw'), 's': start['seed']})
         md = {'a': 1, 'nested': {'x': [1, 2.5, 'y']}} if start['meta'] else None
-        kw = dict(overwrite=True) if overwrite else {}
+        kw = dict(overwrite=gens.spell_true(start.get('owspell', 0))) if overwrite else {}
+        dtsp = gens.spell_dtype(dt, start.get('dtspell', 0))
+        if start.get('dtspell') or (overwrite and start.get('owspell')):
+            self.out.cls('argument-spelling')
         if overwrite and over == 'ragged':
             # the previous occupant of the path is a RaggedArray
             import shutil
@@ -336,13 +340,15 @@ class ArrayRun:
         if start['how'] == 'create':
             ref = np.full(shape, ref.ravel()[0] if ref.size else 0, dtype=dt)
             fillv = ref.ravel()[0] if ref.size else 0
-            self.a = darr.create_array(self.path, shape=shape, dtype=dt, fill=fillv, chunklen=2,
+            self.a = darr.create_array(self.path, shape=shape, dtype=dtsp, fill=fillv, chunklen=2,
                                        accessmode=start['mode'], metadata=md, **kw)
         else:
             x = gens.apply_layout(ref, start.get('layout', 'C'))
             ref = np.ascontiguousarray(x)
             if start.get('layout', 'C') != 'C':
                 self.out.cls('created-from-layout:' + start['layout'])
+            if start.get('dtspell'):        # the array's own type, spelled out as the dtype argument
+                kw = dict(kw, dtype=gens.spell_dtype(x.dtype, start['dtspell']))
             self.a = darr.asarray(self.path, x, accessmode=start['mode'], metadata=md, chunklen=start.get('chunklen', 2), **kw)
         self.m = ref.copy()
         self.meta = dict(md) if md else {}
